@@ -91,7 +91,21 @@ func NumericCase(r *prng.R, id string) *sexp.S {
 		node.Body = append(node.Body, &ast.Stmt{Kind: "call", Fn: "probe", Args: []*ast.Expr{e}})
 	}
 	node.Body = append(node.Body, &ast.Stmt{Kind: "line", Line: &ast.Line{Els: []ast.El{{Text: "done"}}}})
-	prog := &ast.Program{Nodes: []*ast.Node{node}}
+	// a second node applies the conversions to LITERALS and is run three times by the same runner: converting a value that
+	// already has the wanted type must hand it back unchanged every time, not only the first
+	lit := &ast.Node{Title: "Lit"}
+	num := ast.Num(r.Pick("2.5", "7", "0.1", "1000000", "0"))
+	for _, e := range []*ast.Expr{
+		ast.Fn("number", num), ast.Neg(ast.Fn("number", num)), ast.Fn("floor", ast.Neg(ast.Fn("number", num))), ast.Fn("string", ast.Str("x")),
+		ast.Fn("bool", ast.Bool(true)), ast.Not(ast.Fn("bool", ast.Bool(true))), ast.Fn("number", ast.Str("3")), ast.Fn("string", num), ast.Fn("number", num),
+	} {
+		lit.Body = append(lit.Body, &ast.Stmt{Kind: "call", Fn: "probe", Args: []*ast.Expr{e}})
+	}
+	lit.Body = append(lit.Body, &ast.Stmt{Kind: "line", Line: &ast.Line{Els: []ast.El{{Text: "lit"}}}})
+	lit.Body = append(lit.Body, &ast.Stmt{Kind: "if", Clauses: []ast.Clause{{Cond: ast.Bin("lt", ast.Fn("visited_count", ast.Str("Lit")), ast.Num("2")),
+		Body: []*ast.Stmt{{Kind: "jump", JumpID: true, E: ast.Str("Lit")}}}}})
+	node.Body = append(node.Body, &ast.Stmt{Kind: "jump", JumpID: true, E: ast.Str("Lit")})
+	prog := &ast.Program{Nodes: []*ast.Node{node, lit}}
 	layout := &ast.Layout{}
 	ops := sexp.L(sexp.A("ops"))
 	for i := 0; i < 12; i++ {
